@@ -10,12 +10,12 @@ import coqlit as L
 
 ID = "C10"
 COQ_PROPERTY_FILE = "Properties/C10.v"
-COQ_DEPS = ["Common/ListX.v", "Common/ObsHash.v", "Model/ContGeom.v", "Model/ContLegacy.v", "Model/ContExp.v",
+COQ_DEPS = ["Common/ListX.v", "Common/ObsHash.v", "Generated/Tables.v", "Model/ContGeom.v", "Model/ContLegacy.v", "Model/ContExp.v",
             "Proofs/ContGeomProofs.v", "Proofs/ContLegacyProofs.v", "Proofs/ContExpProofs.v"]
 COQ_IMPORTS = "From Mesa Require Import Model.ContGeom Model.ContLegacy Model.ContExp."
 COQ_CASE_TYPE = "case"
 COQ_RUN = "run_case"
-TABLE_CONSTRUCTS = []
+TABLE_CONSTRUCTS = ["cont_legacy_oob", "cont_exp_in_bounds", "cont_exp_growth", "cont_exp_kth", "cont_radius_ops"]
 ENUM_ALWAYS = False
 RULE = ("histories = one continuous space (legacy: 2-D; experimental: 2-D/3-D, initial capacity in {0,1,2,3,10,100}), bounds "
         "with negative / non-unit origins, torus on/off, then <= 30 operations: place/add, move (in bounds, wrapping, "
@@ -26,6 +26,7 @@ RULE = ("histories = one continuous space (legacy: 2-D; experimental: 2-D/3-D, i
 TRUSTED_BASE = [
     "Coq 8.16.1 kernel (coqc); vm_compute used for the examples, the finite facts and for evaluating the model in the correspondence",
     "no axioms: Print Assumptions reports 'Closed under the global context' for every C10 / C18_continuous theorem",
+    "harness/tables/continuous.py (T1) re-extracting the bounds / radius comparison operators, the growth rule and the argpartition kth from the source",
     "harness/props/C10.py driver+observer and the Gallina literal printer (T2, differential testing, not a proof)",
     "Model/ContLegacy.v and Model/ContExp.v are hand transcriptions of mesa/space.py:ContinuousSpace and of "
     "mesa/experimental/continuous_space/{continuous_space,continuous_space_agents}.py; dict = insertion-ordered association "
@@ -36,7 +37,7 @@ TRUSTED_BASE = [
 ]
 ASSUMPTIONS = [
     "coordinates, radii, bounds are multiples of 1/16 of modest size; nothing is claimed about arbitrary binary64 inputs",
-    "query points on a torus lie inside the closed bounds (the toroidal distance of the code is only meaningful there)",
+    "query points on a torus lie inside the closed bounds or at most half a unit outside (the code's min(d, size-d) is the toroidal distance only up to 1.5 periods)",
     "an agent is placed in one space at most once at a time; positions have the dimension of the space",
     "get_nearest_neighbors is not issued when another agent sits exactly on the asking agent (argpartition tie)",
     "k-nearest answers are compared as sets: which k agents argpartition returns among ties is an input to the model",
@@ -48,8 +49,12 @@ BAD = -999999
 
 # ------------------------------------------------------------------ the statement's geometry (scaled ints)
 def _axis_dist(torus, size, a, b):
+    """the statement's distance along one axis: on a torus the shortest way round"""
     d = abs(a - b)
-    return min(d, size - d) if torus else d
+    if torus:
+        d %= size
+        d = min(d, size - d)
+    return d
 
 
 def _dist2(torus, bounds, p, q):
@@ -152,7 +157,9 @@ def _gen_history(rng, space, nd, torus, bounds, cap, nops, maxagents=9):
         else:
             q = _point(rng, bounds)
         if torus:
-            q = [min(max(x, lo), hi) for (lo, hi), x in zip(bounds, q)]
+            # inside the closed bounds; now and then up to half a unit outside (still nearer than 1.5 periods)
+            m = 8 if rng.random() < 0.2 else 0
+            q = [min(max(x, lo - m), hi + m) for (lo, hi), x in zip(bounds, q)]
         elif rng.random() < 0.8:
             q = [min(max(x, lo - 16), hi + 16) for (lo, hi), x in zip(bounds, q)]
         return q
